@@ -122,7 +122,8 @@ def gen_history(ctx, hid, sc, nops):
         elif op == "write":
             h = rng.choice([h for h, (st, k) in live.items() if st == "run"])
             out = H.newfile(None, "out")
-            H.ops.append(("h_write %d %s %s" % (h, out, rng.choice(["fasta", "msf", "clu"])), [h], out))
+            # to a named file, or to the process's standard output (captured in a file by the harness)
+            H.ops.append(("%s %d %s %s" % (rng.choice(["h_write", "h_write", "h_write_stdout"]), h, out, rng.choice(["fasta", "msf", "clu"])), [h], out))
         elif op == "compare":
             pairs = [(a, b) for a in runs for b in runs if a != b and origin[a] == origin[b]]
             hs = list(rng.choice(pairs))
@@ -161,6 +162,22 @@ def run(ctx):
     fails = []
     nh = 6 if ctx.quick else 40
     hists = [gen_history(ctx, i, sc, ctx.rng.randint(10, 40 if not ctx.quick else 25)) for i in range(nh)]
+    # several alignments written to standard output one after the other by ONE process, formats mixed (each must arrive complete, as it does when it
+    # is the only thing the process writes)
+    for i in range(3 if ctx.quick else 20):
+        H = Hist(4000 + i, sc)
+        kind = ctx.rng.choice(["protein", "dna"])
+        recs = gen.family(ctx.rng, kind, ctx.rng.randint(2, 6), ctx.rng.choice([20, 80]), spice=False)
+        f = H.newfile(gen.fasta_text(recs))
+        H.ops = [("h_read 0 %s" % f, [0], None), ("h_run 0 5 -1 -1 -1 %d" % ctx.rng.choice([1, 4]), [0], None)]
+        fm = ["msf", "fasta", "clu", ctx.rng.choice(["msf", "fasta", "clu"])]
+        if i % 3:
+            ctx.rng.shuffle(fm)
+        for f_ in fm:
+            out = H.newfile(None, "out")
+            H.ops.append(("h_write_stdout 0 %s %s" % (out, f_), [0], out))
+        H.ops.append(("h_free 0", [0], None))
+        hists.append(H)
     from concurrent.futures import ThreadPoolExecutor
 
     def run_hist(H):
